@@ -1308,12 +1308,16 @@ func (s *Store) GetRelatedAtTime(from *RelatedFrom, limit int) ([]qresult, *Rela
 
 				// get deleted
 				del := binary.BigEndian.Uint16(k[34:])
-				if del != 1 && hasReachedStartKey {
-					if limit != 0 && len(results) >= limit {
-						break
+				if del != 1 {
+					if hasReachedStartKey {
+						if limit != 0 && len(results) >= limit {
+							break
+						}
+						copy(cont.RelationIndexFromKey, k)
+						results = append(results, qresult{Time: uint64(et), EntityID: relatedID, PredicateID: predID, DatasetID: datasetID})
 					}
-					copy(cont.RelationIndexFromKey, k)
-					results = append(results, qresult{Time: uint64(et), EntityID: relatedID, PredicateID: predID, DatasetID: datasetID})
+					// also when the relation was returned on an earlier page: a live key of
+					// another dataset further down must not produce it a second time
 					added[predID][relatedID] = true
 				}
 
